@@ -40,6 +40,9 @@ inductive Discharge
   /-- `__hash__` from the uuid: network interfaces are only used as dictionary keys / in membership tests, no set of them is
   iterated (by reading; dict iteration is insertion-ordered whatever the hash). -/
   | hashNotIterated
+  /-- `hash(x)` called inside `try/except TypeError` only to test whether `x` is hashable; the value is discarded, the function
+  returns a `bool` that depends on the TYPE of `x` alone (by reading `simulator/core.py:_is_hashable`). -/
+  | hashValueDiscarded
   /-- package set-up scripts that copy example files; not reachable from an environment run (by reading). -/
   | offline
   /-- `for x in sorted(s)` -/
@@ -73,7 +76,7 @@ inductive Discharge
 
 /-- Reasons that rest on reading the code / a trusted runtime fact, not on a lemma of this development. -/
 def Discharge.byReading : Discharge → Bool
-  | .fixedLenSecret | .clockNotRead | .unseededByConfig | .hashNotIterated | .offline | .setMembershipOnly
+  | .fixedLenSecret | .clockNotRead | .unseededByConfig | .hashNotIterated | .hashValueDiscarded | .offline | .setMembershipOnly
   | .setIntHash | .setCycleCheck | .setDeclCovered | .seeding => true
   | _ => false
 
@@ -161,6 +164,7 @@ def table : List (Site × Discharge) := [
   (⟨"simulator/__init__.py", "_SimOutput.__init__", .clock, "datetime.now()", 0⟩, .clockNotRead),
   (⟨"simulator/__init__.py", "_SimOutput.__init__", .clock, "datetime.now()", 1⟩, .clockNotRead),
   (⟨"simulator/core.py", "SimComponent", .uuid, "uuid4()", 0⟩, .idToken),
+  (⟨"simulator/core.py", "_is_hashable", .hashBuiltin, "hash(request_key)", 0⟩, .hashValueDiscarded),
   (⟨"simulator/file_system/file_system.py", "FileSystem.copy_file", .setEscape, "call model_dump <- {'uuid', 'folder_id', 'folder_name', 'sim_path'}", 0⟩, .setMembershipOnly),
   (⟨"simulator/file_system/file_type.py", "FileType.random", .pyRandom, "choice(list(FileType))", 0⟩, .seededRng),
   (⟨"simulator/network/hardware/base.py", "NetworkInterface.__hash__", .hashBuiltin, "hash(self.uuid)", 0⟩, .hashNotIterated),
